@@ -369,7 +369,7 @@ func c17Main(args []string) {
 		return
 	}
 	seed := envU64("VERIF_SEED", 1)
-	nSched, nAbort, nProp := 120, 120, 120
+	nSched, nAbort, nProp := 90, 90, 90
 	if os.Getenv("VERIF_TIER") == "thorough" {
 		nSched, nAbort, nProp = 1500, 1500, 1500
 	}
